@@ -33,10 +33,13 @@ mod methods {
     }
 
     fn string(arg: Duration) -> String {
-        format!(
-            "{}s",
-            arg.num_nanoseconds().unwrap() as f64 / 1_000_000_000.0
-        )
+        let seconds = match arg.num_nanoseconds() {
+            Some(nanos) => nanos as f64 / 1_000_000_000.0,
+            // more than i64 nanoseconds
+            None => arg.num_seconds() as f64 + arg.subsec_nanos() as f64 / 1_000_000_000.0,
+        };
+
+        format!("{}s", seconds)
     }
 
     fn string(arg: CelValue) -> CelResult<String> {
